@@ -10,6 +10,7 @@ import CaddyModel.C18.CostLemmas
 import CaddyModel.C18.Http
 import CaddyModel.C18.Preserve
 import CaddyModel.C18.Rewrite
+import CaddyModel.C18.Consumers
 import CaddyModel.Gen.Consts
 
 namespace CaddyModel.C18
